@@ -335,3 +335,83 @@ spec fn mj_j_le_mnext(a: MonthWeekDayCheckInfos, b: JulianDayCheckInfos) -> bool
 spec fn mj_mnext_le_j(a: MonthWeekDayCheckInfos, b: JulianDayCheckInfos) -> bool {
     a.start_normal_year_offset_range.1 <= b.end_normal_year_offset && a.start_leap_year_offset_range.1 <= b.end_normal_year_offset && a.start_normal_year_offset_range.1 <= b.end_leap_year_offset
 }
+
+// ---- C11, two Mm.w.d days: finite model ------------------------------------------------------------
+
+// day of the month of the w-th (w = 5: last) weekday wd in a month of length len whose first day has weekday f
+spec fn mday(f: int, len: int, w: int, wd: int) -> int {
+    let d0 = 1 + (wd - f) % 7 + 7 * (w - 1);
+    if d0 > len { d0 - 7 } else { d0 }
+}
+
+// days from the "before" rule day (month mb) to the "after" rule day (same month, or the following month if adj),
+// when the first day of month mb has weekday f and the months have lenb / lena days
+spec fn mm_delta(adj: bool, f: int, lenb: int, lena: int, wb: int, db: int, wa: int, da: int) -> int {
+    if adj {
+        lenb - mday(f, lenb, wb, db) + mday((f + lenb) % 7, lena, wa, da)
+    } else {
+        mday(f, lenb, wa, da) - mday(f, lenb, wb, db)
+    }
+}
+
+spec fn next_month(m: int) -> int {
+    if m == 12 { 1 } else { m + 1 }
+}
+
+// delta for month mb in a common (lp = false) or leap (lp = true) year; for December -> January the January is that of
+// the following year (31 days whatever the year)
+spec fn mm_delta_m(mb: int, adj: bool, f: int, lp: bool, wb: int, db: int, wa: int, da: int) -> int {
+    mm_delta(adj, f, dim(mb, lp), dim(next_month(mb), lp), wb, db, wa, da)
+}
+
+// minimum and maximum of delta over the first n of the 14 combinations (f, lp), index i = 2 f + (lp ? 1 : 0)
+spec fn mm_min(mb: int, adj: bool, wb: int, db: int, wa: int, da: int, n: int) -> int
+    decreases n,
+{
+    let v = mm_delta_m(mb, adj, (n - 1) / 2, (n - 1) % 2 == 1, wb, db, wa, da);
+    if n <= 1 { v } else { let r = mm_min(mb, adj, wb, db, wa, da, n - 1); if v < r { v } else { r } }
+}
+
+spec fn mm_max(mb: int, adj: bool, wb: int, db: int, wa: int, da: int, n: int) -> int
+    decreases n,
+{
+    let v = mm_delta_m(mb, adj, (n - 1) / 2, (n - 1) % 2 == 1, wb, db, wa, da);
+    if n <= 1 { v } else { let r = mm_max(mb, adj, wb, db, wa, da, n - 1); if v > r { v } else { r } }
+}
+
+// the audited procedure is right for one combination: a reported range is exactly [min, max] of delta; "always
+// consistent" is reported only if delta is constant or at least 22 days (more than the largest possible
+// difference of the two day times, 16 d 3 h) in absolute value
+spec fn mm_case_ok(mb: int, adj: bool, wb: int, db: int, wa: int, da: int) -> bool {
+    let lo = mm_min(mb, adj, wb, db, wa, da, 14);
+    let hi = mm_max(mb, adj, wb, db, wa, da, 14);
+    match mm_range(mb, wb, db, if adj { next_month(mb) } else { mb }, wa, da) {
+        Some(r) => r.0 == lo && r.1 == hi,
+        None => lo == hi || lo >= 22 || hi <= -22,
+    }
+}
+
+// all combinations for one month and adjacency (same month: sorted by week, wb <= wa), as nested bounded loops
+spec fn mm_all_da(mb: int, adj: bool, wb: int, db: int, wa: int, n: int) -> bool
+    decreases n,
+{
+    if n <= 0 { true } else { mm_case_ok(mb, adj, wb, db, wa, n - 1) && mm_all_da(mb, adj, wb, db, wa, n - 1) }
+}
+
+spec fn mm_all_db(mb: int, adj: bool, wb: int, wa: int, n: int) -> bool
+    decreases n,
+{
+    if n <= 0 { true } else { mm_all_da(mb, adj, wb, n - 1, wa, 7) && mm_all_db(mb, adj, wb, wa, n - 1) }
+}
+
+spec fn mm_all_wa(mb: int, adj: bool, wb: int, n: int) -> bool
+    decreases n,
+{
+    if n <= 0 { true } else { (adj || wb <= n ==> mm_all_db(mb, adj, wb, n, 7)) && mm_all_wa(mb, adj, wb, n - 1) }
+}
+
+spec fn mm_all_wb(mb: int, adj: bool, n: int) -> bool
+    decreases n,
+{
+    if n <= 0 { true } else { mm_all_wa(mb, adj, n, 5) && mm_all_wb(mb, adj, n - 1) }
+}
